@@ -106,6 +106,7 @@ M = [
  ("repetition-board-passes-other-turn", "src/board/mod.rs", "        self.position_info.count_current_position(self.turn)", "        self.position_info.count_current_position(self.turn.opposite())", "violation", ["C17"]),
  ("benign-repetition-get-copied", "src/board/position_info.rs", "        let count = *self.position_count.get(&key).unwrap();\n        self.max_seen_position_count_stack.push(count);\n        count", "        let count = *self.position_count.get(&key).unwrap();\n        let reported = count;\n        self.max_seen_position_count_stack.push(reported);\n        reported", "ok", ["C17"]),
  ("game-forgets-history", "src/game/game.rs", "            Ok(_capture) => {\n                self.save_move(chess_move.clone());\n                self.register_position_after_move();\n                Ok(())", "            Ok(_capture) => {\n                self.register_position_after_move();\n                Ok(())", "violation", ["C17"]),
+ ("benign-game-over-binds-result", "src/game/game.rs", "        let turn = self.board.turn();\n        evaluate::game_ending(&mut self.board, &mut self.move_generator, turn)\n", "        let side_to_move = self.board.turn();\n        let ending = evaluate::game_ending(&mut self.board, &mut self.move_generator, side_to_move);\n        ending\n", "ok", ["C17"]),
  ("game-over-asks-for-the-other-side", "src/game/game.rs", "    pub fn check_game_over_for_current_turn(&mut self) -> Option<GameEnding> {\n        let turn = self.board.turn();", "    pub fn check_game_over_for_current_turn(&mut self) -> Option<GameEnding> {\n        let turn = self.board.turn().opposite();", "violation", ["C17"]),
  ("annotate-forgets-undo", "src/move_generator/mod.rs", "            ChessMoveEffect::None\n        };\n        chess_move.undo(board).unwrap();\n", "            ChessMoveEffect::None\n        };\n", "violation|undecided", ["C06"]),   # refuted, or (depending on the shard layout) Z3 runs into the resource limit: exit 1 or 2, never 0
  # ---- the Game API (C14 coordinate pairs, C15 engine move)
